@@ -242,6 +242,9 @@ func checkC11(c *Ctx) {
 	c.Rule("C11-R21", "focus reports arrive as focus events, text as key events: whatever a parser removes from the input with the answer 'complete' has been appended to the event list (no report is consumed silently because of what came before; = C05-R12)")
 	c.Expect("C11-R21", 6)
 	checkConsumedDelivers(c, p, "C11-R21", nil)
+	c.Rule("C11-R22", "however the bytes are split across reads: the chunk is appended to the decode buffer as received (a rewrite of 0x9b per chunk turns the continuation byte of a character cut by the read boundary into ESC [; = C02-R21)")
+	c.Expect("C11-R22", 1)
+	checkChunkBufferedAsRead(c, p, "C11-R22")
 	pr := p.Fn("tcell:(*tScreen).parseRune")
 	if pr == nil {
 		c.Undecided("C11-R1", "parseRune", "-", "not found")
